@@ -76,7 +76,7 @@ struct Tok {   // shared by all copies of one completion handler: detects "destr
 class ClientImpl : public IClient {
     asio::io_context& ioc_;
     AppSink& sink_;
-    std::unique_ptr<client_type> c_;
+    std::unique_ptr<client_type> c_, standby_;
     std::map<int, std::unique_ptr<asio::cancellation_signal>> sigs_;
 
     asio::cancellation_slot slot_for(int op, bool with_slot) {
@@ -143,7 +143,13 @@ public:
     }
     void cancel() override { if (c_) c_->cancel(); }
     void re_authenticate() override { if (c_) c_->re_authenticate(); }
-    void destroy() override { c_.reset(); }
+    void destroy() override { c_.reset(); standby_.reset(); }
+    void move_assign_fresh() override {
+        if (!c_) return;
+        // a named, longer-lived source object: what it holds after the assignment is not destroyed here
+        standby_.reset(new client_type(ioc_.get_executor()));
+        *c_ = std::move(*standby_);
+    }
     bool alive() const override { return bool(c_); }
     void emit_signal(int op, SigType type) override {
         auto it = sigs_.find(op);
